@@ -290,7 +290,11 @@ func batch(t *testing.T, p *Prop, res *WorkerResult, known []Known) {
 			_ = os.WriteFile(cur+".current", []byte(fmt.Sprintf("%d %d %d", i, rs, res.Evaluations)), 0o644)
 		}
 		wantTrace := len(res.Samples) < 2
-		r, v := exec(t, p, sim.NewTape(rs), wantTrace, known)
+		traceDir := os.Getenv("VERIF_TRACE_DIR")
+		r, v := exec(t, p, sim.NewTape(rs), wantTrace || traceDir != "", known)
+		if traceDir != "" {
+			_ = os.WriteFile(fmt.Sprintf("%s/run-%d.trace", traceDir, i), []byte(strings.Join(r.Trace(), "\n")+fmt.Sprintf("\nhash=%x tape=%d\n", r.Hash(), len(r.T.Rec))), 0o644)
+		}
 		res.Evaluations++
 		if det {
 			res.DetHashes[i] = r.Hash()
